@@ -39,6 +39,12 @@ impl Authorizer {
         match self.execution_time {
             Some(execution_time) => Ok(execution_time),
             None => {
+                // a run that already went over the iteration budget keeps failing
+                if self.world.iterations > self.limits.max_iterations {
+                    return Err(error::Token::RunLimit(
+                        error::RunLimit::TooManyIterations,
+                    ));
+                }
                 let start = Instant::now();
                 // iterations already spent by an earlier (failed or restored) run count
                 // against the budget
